@@ -157,3 +157,15 @@ Example C05_source_token_example :
   ImpGen.imp_newickrd_reader_nextToken 20 (GoSem.Stream (bs " 'a''b',x") 1%Z None) (ImpGen.Imp_newickrd_reader [])
   = GoSem.Ret (GoSem.Stream (bs ",x") 1%Z None, ImpGen.Imp_newickrd_reader (bs "'a''b'"), (bs "'a''b'", 0%Z)).
 Proof. vm_compute. reflexivity. Qed.
+
+(* MarshalText (the tree text followed by ';') and Write (that text handed to the writer in
+   one call) as translated are the model's marshal and write_chunks. *)
+Theorem C05_marshal_is_source : forall o fuel t, (size t < fuel)%nat ->
+  ImpGen.imp_newick_Node_MarshalText fuel o (ImpProofsI.node_of t) = GoSem.Ret (marshal o t, false).
+Proof. exact ImpProofsI.imp_newick_MarshalText. Qed.
+Print Assumptions C05_marshal_is_source.
+
+Theorem C05_write_is_source : forall o fuel t, (size t < fuel)%nat ->
+  ImpGen.imp_newick_Node_Write fuel o (ImpProofsI.node_of t) = GoSem.Ret (write_chunks o t, false).
+Proof. exact ImpProofsI.imp_newick_Write. Qed.
+Print Assumptions C05_write_is_source.
